@@ -73,3 +73,14 @@ Theorem C04_effective_lines_mirror : forall L (w : list (sec R)) (i : sec R), (3
   reid_row exp (rev (map (sec_mirror L) w)) (sec_mirror L i) = mirror4 (reid_row exp w i).
 Proof. exact reid_row_mirror. Qed.
 Print Assumptions C04_effective_lines_mirror.
+
+(* the span coordinate airplane.py measures from the left tip (Model/Gather.v): for the reflected wing - segments in reverse order, sides
+   exchanged, span fractions stored in reverse - control points and nodes sit at L - s in reverse order with inbound and outbound nodes
+   exchanged, which is the relation [sec_mirror] above starts from *)
+From MuxV Require Import Model.Gather Proofs.GatherP.
+Theorem C04_span_coordinates_mirror : forall segs : list (segsp R), let L := wing_length segs in
+  wing_PC 0 (mirror_wing segs) = refl L (wing_PC 0 segs) /\
+  wing_P0 0 (mirror_wing segs) = refl L (wing_P1 0 segs) /\
+  wing_P1 0 (mirror_wing segs) = refl L (wing_P0 0 segs).
+Proof. exact wing_spans_mirror. Qed.
+Print Assumptions C04_span_coordinates_mirror.
